@@ -120,6 +120,8 @@ impl<'r> Variants<'r> {
         let rep = self.rep;
         rep.case();
         rep.nontrivial(hash_of(&(self.what, label, detail.to_string(), seed)));
+        // taken before the configuration is used for the first time
+        let unused: Configuration<P> = Configuration::clone(cfg);
         let base = run(cfg, problem, seed, Backend::Default, false, None, 0);
         let cmp = |name: &str, other: &Result<Value, String>| {
             rep.count("digest_comparisons", 1);
@@ -139,6 +141,18 @@ impl<'r> Variants<'r> {
             }
         };
         cmp("second-identical-run", &run(cfg, problem, seed, Backend::Default, false, None, 0));
+        // the same configuration object after it has been used on another problem instance (other domain bounds):
+        // a configuration holds no per-run or per-problem state
+        if let Some(other) = problem.sibling() {
+            let _ = run(cfg, &other, seed ^ 0x77, Backend::Default, false, None, 0);
+            cmp("same-object-after-a-run-on-another-instance", &run(cfg, problem, seed, Backend::Default, false, None, 0));
+            let used_then_cloned: Configuration<P> = Configuration::clone(cfg);
+            cmp("clone-of-the-used-object", &run(&used_then_cloned, problem, seed, Backend::Default, false, None, 0));
+            // and an object whose FIRST use was on the other instance
+            let _ = run(&unused, &other, seed ^ 0x77, Backend::Default, false, None, 0);
+            cmp("object-first-used-on-another-instance", &run(&unused, problem, seed, Backend::Default, false, None, 0));
+            rep.count("runs_after_use_on_another_instance", 3);
+        }
         let cloned: Configuration<P> = Configuration::clone(cfg);
         cmp("cloned-configuration", &run(&cloned, problem, seed, Backend::Default, false, None, 0));
         for (pi, pool) in self.pools.iter().enumerate() {
@@ -193,6 +207,28 @@ impl<'r> TemplateVisitor for Variants<'r> {
 }
 
 fn random_api(rep: &Reporter) {
+    // small and special seeds, pairwise: different seeds give different streams and different children
+    {
+        let seeds: Vec<u64> = (0..16u64).chain([u64::MAX, u64::MAX - 1, 1 << 32, (1 << 32) - 1, 1 << 63]).collect();
+        let firsts: Vec<(u64, Vec<u64>, Vec<u64>)> = seeds
+            .iter()
+            .map(|&s| {
+                let mut r = Random::new(s);
+                let stream: Vec<u64> = (0..4).map(|_| r.next_u64()).collect();
+                let kids: Vec<u64> = Random::new(s).iter_children().take(3).map(|mut c| c.next_u64()).collect();
+                (s, stream, kids)
+            })
+            .collect();
+        for (i, a) in firsts.iter().enumerate() {
+            for b in &firsts[i + 1..] {
+                rep.case();
+                rep.nontrivial(hash_of(&("seed-pair", a.0, b.0)));
+                if a.1 == b.1 || a.2 == b.2 {
+                    rep.violation("random:different-seeds-same-stream-or-children", json!({"seeds": [a.0, b.0]}));
+                }
+            }
+        }
+    }
     let mut rng = SplitMix64::new(rep.seed).fork(0xC08_A);
     for _ in 0..rep.tier.pick(200, 50_000) {
         let s = rng.next_u64();
@@ -370,7 +406,7 @@ fn steps_equal(a: &[std::collections::BTreeMap<String, Value>], b: &[std::collec
 fn main() {
     let rep = Reporter::from_args("C08");
     rep.fold_aux();
-    rep.rule("for each (configuration, problem, seed): digest(sequential run) must equal digest(second run), digest(run of config.clone()), digest(parallel evaluator in rayon pools of the listed sizes with seeded latency perturbation of the objective), digest(run inside a pool), and a user-supplied generator (StdRng backend) must still be the one in the final state with identical runs under both evaluators; a different seed must change the run. Digest = whole population stack (exact solutions, objective bits), best, counters, full log, algorithm memories (velocities, pheromones, molecules, temperature, diversity, archive) and the generator's next output. Configurations: all 21 templates over the parameter catalogue and seeded random operator pipelines (incl. the four diversity measures). Plus: Random children/streams are functions of the seed; par_experiment run logs (decoded CBOR) equal the log of a sequential run with Random::new(run). distinct_nontrivial = distinct (configuration, seed) cells + Random seeds + experiment batches");
+    rep.rule("for each (configuration, problem, seed): digest(sequential run) must equal digest(second run), digest(run of config.clone()), digest(parallel evaluator in rayon pools of the listed sizes with seeded latency perturbation of the objective), digest(run inside a pool), and a user-supplied generator (StdRng backend) must still be the one in the final state with identical runs under both evaluators; a different seed must change the run. Digest = whole population stack (exact solutions, objective bits), best, counters, full log, algorithm memories (velocities, pheromones, molecules, temperature, diversity, archive) and the generator's next output. Configurations: all 21 templates over the parameter catalogue, seeded random operator pipelines, and the four diversity measures in a loop on problems of 3-64 dimensions; for real-valued problems also the same configuration object after it was used on (or first used on) another problem instance with other domain bounds, and a clone of the used object. Random: small and special seeds pairwise. Plus: Random children/streams are functions of the seed; par_experiment run logs (decoded CBOR) equal the log of a sequential run with Random::new(run). distinct_nontrivial = distinct (configuration, seed) cells + Random seeds + experiment batches");
     rep.assume("schedule diversity is what pool sizes x latency nonces produced (see C06 evidence for measured completion orders); harness problems");
     let sizes: &[usize] = if rep.quick() { &[1, 4, 16] } else { &[1, 2, 4, 8, 16] };
     let pools: Vec<rayon::ThreadPool> = sizes.iter().map(|&n| rayon::ThreadPoolBuilder::new().num_threads(n).build().unwrap()).collect();
@@ -426,6 +462,33 @@ fn main() {
             });
         }
     });
+    // the four diversity measures on problems with many dimensions (sums over dimensions / individuals whose
+    // floating-point association would depend on how a thread pool splits them)
+    {
+        use mahf::components::{boundary, diversity, initialization, mutation};
+        let v = Variants { rep: &rep, pools: &pools, nonces, what: "diversity" };
+        let mut rng = SplitMix64::new(rep.seed).fork(0xC08_D);
+        for k in 0..rep.tier.pick(12usize, 200usize) {
+            let dim = [3usize, 17, 40, 64][k % 4];
+            let pop = 3 + rng.usize(9) as u32;
+            let cfg: Configuration<Real> = Configuration::builder()
+                .do_(initialization::RandomSpread::new(pop))
+                .evaluate()
+                .while_(mahf::conditions::LessThanN::iterations(3), |b| {
+                    b.do_(diversity::DimensionWiseDiversity::new())
+                        .do_(diversity::TrueDiversity::new())
+                        .do_(diversity::PairwiseDistanceDiversity::new())
+                        .do_(diversity::DistanceToAveragePointDiversity::new())
+                        .do_(mutation::NormalMutation::new_dev(0.3))
+                        .do_(boundary::Saturation::new())
+                        .evaluate()
+                })
+                .build();
+            let problem = Real::new(dim, -5.12, 5.12, RealFn::Rastrigin);
+            v.check("diversity measures in a loop", json!({"dimension": dim, "population": pop}), &cfg, &problem, rng.below(1 << 40), true);
+            rep.count("diversity_cells", 1);
+        }
+    }
     // degenerate shapes: empty populations reaching the evaluator / the operators
     {
         use mahf::components::{initialization, mutation, replacement, selection};
